@@ -23,9 +23,16 @@ impl DurationExtension for serde_json::Value {
             ));
         };
 
-        let h = &group["h"].parse::<u64>()?;
-        let m = &group["m"].parse::<u64>()?;
-        let s = &group["s"].parse::<u64>()?;
-        Ok(Duration::from_secs(h * 3600 + m * 60 + s))
+        let h = group["h"].parse::<u64>()?;
+        let m = group["m"].parse::<u64>()?;
+        let s = group["s"].parse::<u64>()?;
+        // an hour count whose seconds exceed u64 must not wrap around to a short duration
+        let secs = h
+            .checked_mul(3600)
+            .and_then(|hs| hs.checked_add(m * 60 + s))
+            .ok_or_else(|| {
+                ConversionError::DecoderError(format!("{:?}", self), String::from("JSON"))
+            })?;
+        Ok(Duration::from_secs(secs))
     }
 }
